@@ -51,7 +51,7 @@ var properties = map[string]propSpec{
 	"C05": {Rules: rl{ruleOwnerGuard, ruleAnswers, ruleSenderExcluded, ruleIDGenerator, ruleIDSources}, Keep: kp{"D1", "B5", "J1", "D3", "D2", "D5"}},
 	"C06": {Rules: rl{ruleLeaveComplete, ruleLeaveCallers, ruleModuleCleanup, ruleCascade, ruleDecoratorForward, ruleMutateRelay, ruleSnapshot, ruleSubscriptions, ruleStoreContracts}, Keep: kp{"E1", "E2", "E3", "E4", "E6", "E9", "A2", "C1", "C7", "S-UnsubscribeAll", "S-DeleteByEntity"}},
 	"C07": {Rules: rl{rulePairedState, ruleLeaveComplete, ruleLeaveCallers, ruleRegistry, ruleIDGenerator, ruleFramePair, ruleAnswers, ruleAtomicity}, Keep: kp{"E1", "E2", "E6", "E7", "E9", "D3", "B4", "B1", "E8"}, Sites: map[string][]string{"B": {"HandleParticipantJoin"}, "E8": {"registry:", "session:empty"}}},
-	"C08": {Rules: rl{rulePairedState, ruleDecoratorForward, rulePBNil, ruleFunnelOnce, ruleGaugePair, ruleWaitFor, rulePanicContainment, ruleClampSymmetry, ruleTaintAlloc, ruleDeferUnlock, ruleFramePair, ruleRelaySync}, Keep: kp{"A2", "G1", "E5", "G5", "G6", "F4", "G2", "G3", "G4", "F6b", "E6", "C6", "E9"}},
+	"C08": {Rules: rl{ruleMainLineBlocking, rulePairedState, ruleDecoratorForward, rulePBNil, ruleFunnelOnce, ruleGaugePair, ruleWaitFor, rulePanicContainment, ruleClampSymmetry, ruleTaintAlloc, ruleDeferUnlock, ruleFramePair, ruleRelaySync}, Keep: kp{"A2", "G1", "E5", "G5", "G6", "F4", "G2", "G3", "G4", "F6b", "E6", "C6", "E9", "G7"}},
 	"C09": {Rules: rl{ruleGuardedBy, ruleNoEscape, ruleLockOrder, ruleLockPairing, ruleSplitCriticalSection, ruleWaitFor, ruleDeferUnlock, ruleFramePair, ruleAtomicity, ruleThreadConfinement}},
 	"C10": {Rules: rl{ruleIDGenerator, ruleStoreContracts, ruleSplitCriticalSection, ruleIDSources, ruleEntityActions, ruleRegistry, ruleAtomicity}, Keep: kp{"D3", "D4", "E8a", "D5", "E7", "E8"}, Sites: map[string][]string{"E8": {"session:empty"}}},
 	"C11": {Rules: rl{rulePBNil, ruleSnapshot, ruleAnswers, ruleOwnerGuard, ruleFramePair, ruleIDGenerator, ruleMutateRelay, ruleFlagWrap}, Keep: kp{"G1", "C11-pose", "B5", "B7", "D1", "E6", "D3", "C1", "C4c"}},
